@@ -24,4 +24,16 @@ OBLIGATIONS.append(Ob('C08.e2e_P4_k2', H, 'h_e2e', tier='quick', unwind=18, defi
     bound='precision 2^4, 3-symbol alphabet with any valid probabilities, every 2-symbol sequence', covers='RAnsEncoder<4>::write_init/rans_write/write_end, RAnsDecoder<4>::rans_build_look_up_table/read_init/rans_read'))
 OBLIGATIONS.append(Ob('C08.e2e_P4_k3', H, 'h_e2e', tier='thorough', unwind=18, defines={'E2EP': 4, 'K': 3}, max_alloc=64,
     bound='precision 2^4, every 3-symbol sequence', covers='as C08.e2e_P4_k2'))
+TAG = '_ZN5draco19EncodeTaggedSymbolsINS_17RAnsSymbolEncoderEEEbPKjiiRKSt6vectorIjSaIjEEPNS_13EncoderBufferE'
+RAW = '_ZN5draco16EncodeRawSymbolsINS_17RAnsSymbolEncoderEEEbPKjijiPKNS_7OptionsEPNS_13EncoderBufferE'
+OBLIGATIONS.append(Ob('C08.raw_estimate_safe', 'C08/select.cc', 'h_raw_estimate', tier='quick', unwind=12, ub=True, flavour='nospec', max_alloc=32,
+    allow_alloc_cut=True, diff=False, stubs={'log2': 'ret0'},
+    bound='2 symbols with maximum < 2^31 (call context, see C08.reject_32bit); frequency tables above 32 bytes (max symbol > 7) are cut; log2 cut (returns 0: the entropy value is not the subject)',
+    covers='ApproximateRawSchemeBits -> ComputeShannonEntropy(symbols, n, int max_value): conversion of the uint32 maximum to int, frequency table allocation and indexing'))
+TAG = '_ZN5draco19EncodeTaggedSymbolsINS_17RAnsSymbolEncoderEEEbPKjiiRKSt6vectorIjSaIjEEPNS_13EncoderBufferE'
+RAW = '_ZN5draco16EncodeRawSymbolsINS_17RAnsSymbolEncoderEEEbPKjijiPKNS_7OptionsEPNS_13EncoderBufferE'
+OBLIGATIONS.append(Ob('C08.reject_32bit', 'C08/select.cc', 'h_reject_32bit', tier='quick', unwind=12, ub=True, flavour='nospec', uf_float=True, max_alloc=144,
+    allow_alloc_cut=True, diff=False, stubs={TAG: 'ret1', RAW: 'ret1'},
+    bound='2 symbols, at least one >= 2^31, default options',
+    covers='EncodeSymbols: ComputeBitLengths + the 32-bit guard (no entropy estimate, no frequency table is reached); coders cut'))
 META = {}
